@@ -20,6 +20,7 @@ import PolyplyVerif.Model.TopParse
 import PolyplyVerif.Proofs.TopParse
 import PolyplyVerif.Proofs.C08Flatten
 import PolyplyVerif.Proofs.C08FlattenConv
+import PolyplyVerif.Proofs.C08WellFormedFlatten
 
 namespace PolyplyVerif.C08
 open PolyplyVerif PolyplyVerif.TopParse PolyplyVerif.Proofs.TopParse PolyplyVerif.Proofs.C08Flatten
@@ -483,6 +484,82 @@ theorem C08_cx_molecules_in_included_file :
     errOf (readTop fsMolecules ["top.top"]) = some "unknown-molecule" ∧
     ((okOf (flatten fsMolecules ["top.top"])).map fun st => (okOf (readSingle st.out)).map (·.molecules))
       = some (some ["M", "M"]) := by
+  decide
+
+end PolyplyVerif.C08
+
+/-! ### the flattened text as a one-file tree (`Proofs/C08WellFormedFlatten.lean`) -/
+
+namespace PolyplyVerif.C08
+open PolyplyVerif PolyplyVerif.TopParse PolyplyVerif.Proofs.TopParse PolyplyVerif.Proofs.C08Flatten
+
+/-- **The flattened text of a well-formed include tree is well formed as a one-file tree**, whatever the name `p`
+given to that file: the class `wellFormed` of the flattening theorems is closed under `flatten`.  For every tree
+(any number of files, include depth, repeated and conditional includes).  Proof: a second simulation
+(`Proofs/C08WellFormedFlatten.lean`) between the syntactic scan of the tree (`wfLines` per file, relation `RelW`)
+and the scan of the text emitted so far; induction on the include depth (`wfile`) and on the lines (`wlines`).
+No hypothesis besides the two of the statement: nothing is assumed about either reader. -/
+theorem C08_wellFormed_flatten (fs : FS) (top : Path) (st : FlatSt) (p : Path)
+    (hwf : wellFormed fs top = true) (hfl : flatten fs top = .ok st) :
+    wellFormed [(p, st.out)] p = true :=
+  wellFormed_flatten fs top st p hwf hfl
+
+/-- non-vacuity: `fsGood` (nested directories, conditional includes with `#else`, nested include, conditional inside
+a moleculetype, include after it) meets the hypotheses; the conclusion is observed on it, and it is NOT a
+triviality of the scan: the one-file tree of a text that is not well formed is rejected -/
+example : wellFormed fsGood ["run", "system.top"] = true ∧
+    (match flatten fsGood ["run", "system.top"] with
+     | .ok st => st.out.length == 34 && wellFormed [(["d", "flat.top"], st.out)] ["d", "flat.top"]
+     | .error _ => false) = true ∧
+    wellFormed [(["flat.top"], ["[ moleculetype ]", "M 1", "[ system ]", "#ifdef A", "#endif"])] ["flat.top"] = false := by
+  decide
+
+/-- **Flattening is idempotent on well-formed trees**: the flattened text contains no `#include` line any more,
+so the one-file tree holding it flattens to the same text. -/
+theorem C08_flatten_idempotent (fs : FS) (top : Path) (st : FlatSt) (p : Path)
+    (hwf : wellFormed fs top = true) (hfl : flatten fs top = .ok st) :
+    ∃ st2, flatten [(p, st.out)] p = .ok st2 ∧ st2.out = st.out :=
+  flatten_idem fs top st p hwf hfl
+
+example :
+    let fs : FS := [(["t.top"], ["#define A", "#ifdef A", "#include \"i.itp\"", "#else", "#include \"j.itp\"", "#endif"]),
+                    (["i.itp"], ["[ atomtypes ]", "#include \"j.itp\""]), (["j.itp"], ["[ system ]", "title"])]
+    wellFormed fs ["t.top"] = true ∧
+    (okOf (flatten fs ["t.top"])).map (·.out)
+      = some ["#define A", "#ifdef A", "[ atomtypes ]", "[ system ]", "title", "#else", "#endif"] ∧
+    (okOf (flatten [(["f"], ["#define A", "#ifdef A", "[ atomtypes ]", "[ system ]", "title", "#else", "#endif"])] ["f"])).map (·.out)
+      = some ["#define A", "#ifdef A", "[ atomtypes ]", "[ system ]", "title", "#else", "#endif"] := by
+  decide
+
+/-- **Reading a well-formed include tree = reading the one-file tree of its flattened text, with the SAME reader**
+(`readTop` on both sides; `C08_flatten_equiv_partial` has the auxiliary single-file reader `readSingle`, which
+rejects every `#include`, on the right).  This is also the instance `fs2 = [(p, st1.out)]` of
+`C08_include_order_irrelevant_partial` with its hypotheses `hwf2` (by `C08_wellFormed_flatten`), `hfl2`, `hsame`
+(by `C08_flatten_idempotent`) and `hnm` discharged.  Forward: tree read ⇒ one-file tree read, same observables.
+Converse: one-file tree read ⇒ the tree is read or stops on a malformed moleculetype name line (`isNameErr`,
+see `C08_flatten_equiv_conv_partial`; with `noMalformedMolNames fs top` it is an iff). -/
+theorem C08_flatten_equiv_same_reader (fs : FS) (top : Path) (st : FlatSt) (p : Path)
+    (hwf : wellFormed fs top = true) (hfl : flatten fs top = .ok st) :
+    (∀ gt, readTop fs top = .ok gt → ∃ gf, readTop [(p, st.out)] p = .ok gf ∧ ObsEq gt gf) ∧
+    (∀ gf, readTop [(p, st.out)] p = .ok gf →
+      (∃ gt, readTop fs top = .ok gt) ∨ (∃ e, readTop fs top = .error e ∧ isNameErr e = true)) ∧
+    (noMalformedMolNames fs top = true →
+      ((∃ gt, readTop fs top = .ok gt) ↔ (∃ gf, readTop [(p, st.out)] p = .ok gf))) := by
+  have hrs : readTop [(p, st.out)] p = readSingle st.out :=
+    readTop_single p st.out (flatten_noIncl fs top st hwf hfl)
+  rw [hrs]
+  refine ⟨fun gt hgt => (flatten_equiv fs top st gt hwf hfl hgt).2,
+          fun gf hgf => flatten_equiv_conv fs top st gf hwf hfl hgf, fun hnm => ?_⟩
+  exact (C08_flatten_equiv fs top st hwf hfl hnm).1
+
+/-- non-vacuity: `fsGood` and the one-file tree of its flattened text are read by `readTop` to the same molecule
+list, type tables and number of molecule types -/
+example : wellFormed fsGood ["run", "system.top"] = true ∧
+    (okOf (readTop fsGood ["run", "system.top"])).map (fun g => (g.molecules, g.types.map (·.1), g.groups.length))
+      = some (["SOL", "SOL", "MOL1", "SOL"], ["bonds", "angles"], 2) ∧
+    (okOf (flatten fsGood ["run", "system.top"])).map (fun st => (okOf (readTop [(["flat.top"], st.out)] ["flat.top"])).map
+        (fun g => (g.molecules, g.types.map (·.1), g.groups.length)))
+      = some (some (["SOL", "SOL", "MOL1", "SOL"], ["bonds", "angles"], 2)) := by
   decide
 
 end PolyplyVerif.C08
